@@ -112,6 +112,7 @@ func Alphabet(contents []string, nspell int, views [][]string, escapes bool, rea
 			add(treefs.Op{Kind: "Writer", P: p.p, Via: "copy"})
 			add(treefs.Op{Kind: "Writer", P: p.p, Chunks: []string{last}, Via: "copy"})
 			add(treefs.Op{Kind: "Writer", P: p.p, Chunks: []string{last}, Via: "string"})
+			add(treefs.Op{Kind: "Writer", P: p.p, Chunks: []string{"h", "b", last, "t"}, Via: "mixed"})
 			for ci, c := range contents {
 				add(treefs.Op{Kind: "WriteFile", P: p.p, Data: c})
 				if ci == len(contents)-1 {
